@@ -869,7 +869,9 @@ def formula_grammar(table):
     grouped_mixture = grouped_mixture.setParseAction(convert_mixture)
 
     mixture << (compound | grouped_mixture)
-    formula = (compound | ungrouped_mixture | grouped_mixture)
+    # Note: try mixtures first, otherwise "5 L H2O@1" fails with unknown
+    # element L before the litre unit is considered.
+    formula = (ungrouped_mixture | compound | grouped_mixture)
     grammar = Optional(formula, default=Formula()) + StringEnd()
 
     grammar.setName('Chemical Formula')
